@@ -34,10 +34,12 @@ CLAIMED = {
                      "on the files left behind",
         "text": "Seeded exploration of composed runs of writer -> files -> reader -> rate matrix -> solver under fault "
                 "schedules. Judged on the files the run leaves: per-pair detailed balance w.r.t. V*exp(-E/RT) (rel. "
-                "1e-9), Q pattern == saved adjacency, grid files == an uninterrupted run (bitwise, incl. entry order), "
-                "eigenvalues real/sorted/matching a dense solver, largest zero, left eigenvector proportional to "
-                "V*exp(-E/RT) for every simulated start vector. Sampling, not proof. Findings F12 and F13 are printed "
-                "as KNOWN-FINDING.",
+                "1e-9, pairs beyond the 500 kJ/mol cap not judged), Q pattern == saved adjacency, finite entries and "
+                "positive volumes, eigenvalues real/sorted/matching a dense solver, largest zero, left eigenvector proportional to "
+                "V*exp(-E/RT) for every simulated start vector; the stages run inside a project directory, a quarter "
+                "of the runs interleave a second experiment of the same project. Sampling, not proof. Findings F12 and "
+                "F13 are printed as KNOWN-FINDING. (Bit-identity of the files with an uninterrupted run is C08's/C20's "
+                "claim and is only counted here.)",
         "note": "Trusted: numpy dense eigvals as the reference solver, the oracle code in sim/pipeline.py, the fake "
                 "peers' file formats. Snakemake is a stub (stage drivers mirror the rule bodies). Eigen-oracle only "
                 "where well conditioned (sigma<=3 kJ/mol, T>=250 K, 8<=n<=cap, k<=n-2; eigenvector clause needs a "
